@@ -4,104 +4,197 @@
 (*                                                                         *)
 (* A *user* is one instruction or terminator in one configuration of       *)
 (* Schema.tla (kind, repetition counts, operand bundles, *ir.Arg           *)
-(* wrapping).  Its state is vals: the value currently held by every        *)
-(* operand of the configuration (in textual order; this is what printing   *)
-(* shows), and cache: the successor list remembered by the first Succs()   *)
-(* call (unset before).  Values are abstract: "a" is the value under      *)
-(* replacement, "o1", "o2"... are pairwise distinct other values, "n" is   *)
+(* wrapping).  Its operands live in memory cells: addr[i] is the cell      *)
+(* (the Go field, slice element or helper-struct field) that holds operand *)
+(* i, mem[cell] the value in it; printing shows mem[addr[i]].  A slot      *)
+(* returned by Operands() is a cell.  Values are abstract: "a" is the      *)
+(* value under replacement, "o1", "o2"... pairwise distinct others, "n"    *)
 (* the new value.                                                          *)
 (*                                                                         *)
-(* Actions (one per API call):                                             *)
-(*   Place            choose which one or two operands hold "a";           *)
+(* Actions (one per API call or client statement):                         *)
+(*   Place            one or two operands hold "a" (two branch targets     *)
+(*                    holding "a" is a repeated target);                   *)
 (*   QuerySuccs       Succs();                                             *)
-(*   ReplaceOperand   *Operands()[k] = "n" for one exposed slot k;         *)
-(*   ReplaceAllUses   for every slot s of Operands(): if *s = "a" then     *)
-(*                    *s = "n"  (the loop every client writes).            *)
+(*   QueryOperands    Operands();                                          *)
+(*   ReplaceOperand   *Operands()[p] = "n";                                *)
+(*   ReplaceAllUses   for s in Operands(): if *s = "a" then *s = "n";      *)
+(*   DirectAssign     inst.Field = "n" / inst.Slice[i] = "n" (same cell);  *)
+(*   ReplaceElem      inst.Incs[i] = NewIncoming(...): the repetition      *)
+(*                    moves to fresh cells (helper structs: phi incoming,  *)
+(*                    switch case, landingpad clause, operand bundle);     *)
+(*   SwapSlice        inst.Args = newSliceOfSameLength: all elements of a  *)
+(*                    []value.Value group move to fresh cells;             *)
+(*   AppendRep / RemoveRep  one repetition of a repeated group is appended /     *)
+(*                    removed (the configuration changes).                 *)
 (*                                                                         *)
-(* AsImplemented = FALSE is the view the property requires: every operand  *)
-(* of the Schema table is exposed as itself and Succs() is computed from   *)
-(* the targets.  AsImplemented = TRUE models llir/llvm as it is: operand   *)
-(* bundle inputs are not exposed (NotExposed), a call argument wrapped in  *)
-(* *ir.Arg shows the wrapper instead of the value (Visible), and Succs()   *)
-(* returns the list cached by its first call.                              *)
+(* Dev is the set of deviations from the required views that are switched  *)
+(* on.  {} is what the property requires.  "wrap-args" is llir/llvm as it  *)
+(* is now (an argument wrapped in *ir.Arg shows the wrapper).  The others  *)
+(* are deviations found earlier and repaired ("hide-bundles": bundle       *)
+(* inputs not exposed, "cache-succs": Succs() answers from its first call) *)
+(* or plausible optimisations ("cache-ops": Operands() reuses its slot     *)
+(* list while the length is unchanged, "dedup-succs": Succs() lists a      *)
+(* repeated target once).  TLC: every property holds for Dev = {}; each    *)
+(* singleton violates the property named in OperandsDev_*.cfg (run as      *)
+(* vacuity guards in every tier).                                          *)
 (*                                                                         *)
-(* Properties: NoUseLeft (after ReplaceAllUses no operand holds "a"),      *)
-(* WriteExact (ReplaceOperand changes exactly slot k), SuccsLive (Succs()  *)
-(* is the current branch targets, in order).  TLC: all hold with           *)
-(* AsImplemented = FALSE; with TRUE (and -continue) NoUseLeft and          *)
-(* SuccsLive are violated -- the three defect classes the harness finds    *)
-(* in the real code (bundle inputs, Arg wrapper, stale successor cache).   *)
-(* The harness performs the same calls on the real instruction for every   *)
-(* configuration (harness/props/c15) and OperandsTrace.tla judges the      *)
-(* recorded before/after operand texts.                                    *)
+(* Properties: Complete (Operands() is exactly the current cells, each     *)
+(* showing the operand itself), WriteLive (a write through slot p changes  *)
+(* what operand p prints), WriteExact (and nothing else), NoUseLeft,       *)
+(* SuccsLive (Succs() = current targets, in order, with multiplicity).     *)
+(* harness/props/c15 performs the same calls and edits on the real         *)
+(* instruction for every configuration; OperandsTrace.tla judges the       *)
+(* recorded replace-all-uses experiments.                                  *)
 (***************************************************************************)
 EXTENDS Schema
 
-CONSTANTS AsImplemented,   \* FALSE: the view the property requires; TRUE: llir/llvm as it is
-          MaxCalls        \* bound on the number of API calls per history
+CONSTANTS Dev,        \* set of deviations switched on
+          MaxCalls,   \* bound on the number of calls / edits per history
+          MaxOps      \* only configurations with at most this many operands
 
-VARIABLES stage,   \* "init" "kind" "case" "placed" then API calls
+VARIABLES stage,   \* "init" "kind" "case" "placed"
           k,       \* index of the kind
           c,       \* the configuration (a Schema case)
-          vals,    \* value held by every operand
-          cache,   \* remembered successor list: [set, v]
+          addr,    \* addr[i]: the cell of operand i
+          mem,     \* mem[cell]: the value in the cell (detached cells keep their value)
+          cacheS,  \* what the first Succs() returned: [set, v]
+          cacheO,  \* what the last Operands() returned: [set, v]
           out,     \* answer of the last Succs() call
-          last,    \* last API call: [op, slot]
-          steps    \* number of API calls so far
-vars == <<stage, k, c, vals, cache, out, last, steps>>
+          last,    \* last call: [op, slot]
+          steps
+vars == <<stage, k, c, addr, mem, cacheS, cacheO, out, last, steps>>
 
 N == Len(c.ops)
+Val(i) == mem[addr[i]]
 Other(i) == "o" \o ToString(i)
+E == Kinds[k]
 
-NotExposed(i) == AsImplemented /\ c.ops[i].role = "bundle input"
-Wrapped(i)    == AsImplemented /\ c.wrap /\ c.ops[i].role = "arg"
-Visible(i)    == IF Wrapped(i) THEN "wrapper" ELSE vals[i]
-Targets       == [n \in 1..Len(c.succs) |-> vals[c.succs[n]]]
+Hidden(i)  == "hide-bundles" \in Dev /\ c.ops[i].role = "bundle input"
+Wrapped(i) == "wrap-args" \in Dev /\ c.wrap /\ c.ops[i].role = "arg"
+ExposedIdx == SelectSeq([i \in 1..N |-> i], LAMBDA i : ~Hidden(i))
+FreshSlots == [p \in 1..Len(ExposedIdx) |-> addr[ExposedIdx[p]]]
+\* the slot list an Operands() call returns now
+OperandsNow == IF "cache-ops" \in Dev /\ cacheO.set /\ Len(cacheO.v) = Len(FreshSlots) THEN cacheO.v ELSE FreshSlots
+Remember == cacheO' = [set |-> TRUE, v |-> OperandsNow]
+\* what a client sees in a cell: the wrapper for a wrapped argument
+IsWrapperCell(cell) == \E i \in 1..N : addr[i] = cell /\ Wrapped(i)
+Visible(cell) == IF IsWrapperCell(cell) THEN "wrapper" ELSE mem[cell]
 
-Init == /\ stage = "init" /\ k = 0 /\ c = <<>> /\ vals = <<>> /\ cache = [set |-> FALSE, v |-> <<>>] /\ out = <<>>
+Targets == [n \in 1..Len(c.succs) |-> Val(c.succs[n])]
+RECURSIVE Dedup(_)
+Dedup(s) == IF s = <<>> THEN <<>>
+            ELSE LET r == Dedup(SubSeq(s, 1, Len(s) - 1)) x == s[Len(s)]
+                 IN IF \E j \in 1..Len(r) : r[j] = x THEN r ELSE Append(r, x)
+
+Init == /\ stage = "init" /\ k = 0 /\ c = <<>> /\ addr = <<>> /\ mem = <<>>
+        /\ cacheS = [set |-> FALSE, v |-> <<>>] /\ cacheO = [set |-> FALSE, v |-> <<>>] /\ out = <<>>
         /\ last = [op |-> "none", slot |-> 0] /\ steps = 0
 
 PickKind == /\ stage = "init" /\ k' \in 1..NKinds /\ stage' = "kind"
-            /\ UNCHANGED <<c, vals, cache, out, last, steps>>
+            /\ UNCHANGED <<c, addr, mem, cacheS, cacheO, out, last, steps>>
 PickCase == /\ stage = "kind"
-            /\ c' \in {x \in Cases(Kinds[k]) : x.fam \in {"config", "wrap"} /\ Len(x.ops) > 0}
-            /\ stage' = "case" /\ UNCHANGED <<k, vals, cache, out, last, steps>>
-\* one or two operands hold the value under replacement
+            /\ c' \in {x \in Cases(E) : x.fam \in {"config", "wrap"} /\ Len(x.ops) > 0 /\ Len(x.ops) <= MaxOps}
+            /\ stage' = "case" /\ UNCHANGED <<k, addr, mem, cacheS, cacheO, out, last, steps>>
 Place == /\ stage = "case"
+         /\ addr' = [i \in 1..N |-> i]
          /\ \E i \in 1..N : \E j \in i..N :
-              vals' = [x \in 1..N |-> IF x = i \/ x = j THEN "a" ELSE Other(x)]
-         /\ stage' = "placed" /\ UNCHANGED <<k, c, cache, out, last, steps>>
+              mem' = [x \in 1..N |-> IF x = i \/ x = j THEN "a" ELSE Other(x)]
+         /\ stage' = "placed" /\ UNCHANGED <<k, c, cacheS, cacheO, out, last, steps>>
+
+Call == stage = "placed" /\ steps < MaxCalls /\ steps' = steps + 1 /\ UNCHANGED <<stage, k>>
 
 QuerySuccs ==
-  /\ stage = "placed" /\ steps < MaxCalls /\ Kinds[k].cat = "term"
-  /\ out' = IF AsImplemented /\ cache.set THEN cache.v ELSE Targets
-  /\ cache' = IF cache.set THEN cache ELSE [set |-> TRUE, v |-> Targets]
-  /\ last' = [op |-> "succs", slot |-> 0] /\ steps' = steps + 1
-  /\ UNCHANGED <<stage, k, c, vals>>
+  /\ Call /\ E.cat = "term"
+  /\ out' = IF "cache-succs" \in Dev /\ cacheS.set THEN cacheS.v
+            ELSE IF "dedup-succs" \in Dev THEN Dedup(Targets) ELSE Targets
+  /\ cacheS' = IF cacheS.set THEN cacheS ELSE [set |-> TRUE, v |-> Targets]
+  /\ last' = [op |-> "succs", slot |-> 0]
+  /\ UNCHANGED <<c, addr, mem, cacheO>>
+
+QueryOperands ==
+  /\ Call /\ Remember /\ last' = [op |-> "ops", slot |-> 0] /\ UNCHANGED <<c, addr, mem, cacheS, out>>
 
 ReplaceOperand ==
-  /\ stage = "placed" /\ steps < MaxCalls
-  /\ \E i \in {x \in 1..N : ~NotExposed(x)} :
-       /\ vals' = [vals EXCEPT ![i] = "n"]
-       /\ last' = [op |-> "write", slot |-> i]
-  /\ steps' = steps + 1 /\ UNCHANGED <<stage, k, c, cache, out>>
+  /\ Call /\ Remember
+  /\ \E p \in 1..Len(OperandsNow) :
+       /\ mem' = [mem EXCEPT ![OperandsNow[p]] = "n"]
+       /\ last' = [op |-> "write", slot |-> p]
+  /\ UNCHANGED <<c, addr, cacheS, out>>
 
 ReplaceAllUses ==
-  /\ stage = "placed" /\ steps < MaxCalls
-  /\ vals' = [i \in 1..N |-> IF ~NotExposed(i) /\ Visible(i) = "a" THEN "n" ELSE vals[i]]
+  /\ Call /\ Remember
+  /\ mem' = [cell \in 1..Len(mem) |->
+               IF (\E p \in 1..Len(OperandsNow) : OperandsNow[p] = cell) /\ Visible(cell) = "a" THEN "n" ELSE mem[cell]]
   /\ last' = [op |-> "rauw", slot |-> 0]
-  /\ steps' = steps + 1 /\ UNCHANGED <<stage, k, c, cache, out>>
+  /\ UNCHANGED <<c, addr, cacheS, out>>
 
-Next == PickKind \/ PickCase \/ Place \/ QuerySuccs \/ ReplaceOperand \/ ReplaceAllUses
+\* --- direct edits of the exported fields ----------------------------------
+StructRoles == {"incoming value", "incoming pred", "case value", "case target", "clause", "bundle input"}
+SameRep(i, j) == /\ c.ops[i].i = c.ops[j].i
+                 /\ \E gi \in 1..Len(E.groups) : \E m1, m2 \in 1..Len(E.groups[gi].mem) :
+                      E.groups[gi].mem[m1].n = c.ops[i].slot /\ E.groups[gi].mem[m2].n = c.ops[j].slot
+GroupOf(i) == CHOOSE gi \in 1..Len(E.groups) : \E m \in 1..Len(E.groups[gi].mem) : E.groups[gi].mem[m].n = c.ops[i].slot
+Repeated(i) == E.groups[GroupOf(i)].ar \in {"many", "many1", "bundles"}
+\* move the operands in S to fresh cells (keeping their values), then store v in operand i
+Move(ss, i, v) ==
+  LET idx == SelectSeq([x \in 1..N |-> x], LAMBDA x : x \in ss)
+      pos(x) == CHOOSE p \in 1..Len(idx) : idx[p] = x
+  IN /\ addr' = [x \in 1..N |-> IF x \in ss THEN Len(mem) + pos(x) ELSE addr[x]]
+     /\ mem' = mem \o [p \in 1..Len(idx) |-> IF idx[p] = i THEN v ELSE Val(idx[p])]
+
+DirectAssign ==
+  /\ Call /\ \E i \in 1..N : mem' = [mem EXCEPT ![addr[i]] = "n"] /\ last' = [op |-> "assign", slot |-> i]
+  /\ UNCHANGED <<c, addr, cacheS, cacheO, out>>
+ReplaceElem ==
+  /\ Call
+  /\ \E i \in {x \in 1..N : c.ops[x].role \in StructRoles} :
+       /\ Move({j \in 1..N : IF c.ops[i].role = "bundle input" THEN c.ops[j].role = "bundle input" /\ c.ops[j].i = c.ops[i].i
+                                                              ELSE SameRep(i, j)}, i, "n")
+       /\ last' = [op |-> "replace", slot |-> i]
+  /\ UNCHANGED <<c, cacheS, cacheO, out>>
+SwapSlice ==
+  /\ Call
+  /\ \E i \in {x \in 1..N : Repeated(x) /\ c.ops[x].role \notin StructRoles} :
+       /\ Move({j \in 1..N : c.ops[j].slot = c.ops[i].slot}, i, "n")
+       /\ last' = [op |-> "swap", slot |-> i]
+  /\ UNCHANGED <<c, cacheS, cacheO, out>>
+
+\* Append / Remove one repetition of group gi: the configuration changes
+Start(gi) == LET before == {x \in 1..N : GroupOf(x) < gi} IN Cardinality(before)
+Resize(gi, d) ==
+  LET g == E.groups[gi]
+      m == Len(g.mem)
+      cfg2 == [c.cfg EXCEPT !.cnt[gi] = @ + d]
+      c2 == MkCase(E, c.fam, c.cls, cfg2, <<>>, c.attrs, TRUE, c.wrap)
+      cut == Start(gi) + c.cfg.cnt[gi] * m          \* operands up to the end of the group
+  IN /\ g.ar \in {"many", "many1"} /\ c.cfg.cnt[gi] + d >= g.min /\ c.cfg.cnt[gi] + d <= 3
+     /\ c' = c2
+     /\ IF d = 1
+        THEN /\ addr' = SubSeq(addr, 1, cut) \o [x \in 1..m |-> Len(mem) + x] \o SubSeq(addr, cut + 1, N)
+             /\ mem' = mem \o [x \in 1..m |-> "n"]
+        ELSE /\ addr' = SubSeq(addr, 1, cut - m) \o SubSeq(addr, cut + 1, N)
+             /\ mem' = mem
+AppendRep == /\ Call /\ \E gi \in 1..Len(E.groups) : Resize(gi, 1) /\ last' = [op |-> "append", slot |-> gi]
+          /\ UNCHANGED <<cacheS, cacheO, out>>
+RemoveRep == /\ Call /\ \E gi \in 1..Len(E.groups) : Resize(gi, -1) /\ last' = [op |-> "remove", slot |-> gi]
+          /\ UNCHANGED <<cacheS, cacheO, out>>
+
+Next == PickKind \/ PickCase \/ Place \/ QuerySuccs \/ QueryOperands \/ ReplaceOperand \/ ReplaceAllUses
+        \/ DirectAssign \/ ReplaceElem \/ SwapSlice \/ AppendRep \/ RemoveRep
 Spec == Init /\ [][Next]_vars
 
-NoUseLeft == last.op = "rauw" => \A i \in 1..N : vals[i] # "a"
-SuccsLive == last.op = "succs" => out = Targets
-\* a write through slot k changes exactly operand k (action property)
-WriteExact == [][last'.op = "write" /\ stage = "placed" =>
-                  \A i \in 1..N : i # last'.slot => vals'[i] = vals[i]]_vars
-\* every operand of the table is reachable through some exposed slot as itself
-Complete == stage = "placed" => \A i \in 1..N : ~NotExposed(i) /\ ~Wrapped(i)
+----------------------------------------------------------------------------
+Placed == stage = "placed"
+\* Operands() is exactly the current cells, every operand visible as itself
+Complete == Placed => /\ OperandsNow = addr
+                      /\ \A i \in 1..N : ~Wrapped(i)
+NoUseLeft == Placed /\ last.op = "rauw" => \A i \in 1..N : Val(i) # "a"
+SuccsLive == Placed /\ last.op = "succs" => out = Targets
+\* a write through slot p is seen at the p-th exposed operand
+WriteLive == Placed /\ last.op = "write" => Val(ExposedIdx[last.slot]) = "n"
+\* ... and changes nothing else (action property)
+WriteExact == [][Placed /\ last'.op = "write" =>
+                  \A i \in 1..N : i # ExposedIdx[last'.slot] => mem'[addr'[i]] = mem[addr[i]]]_vars
 
-View == <<stage, k, c, vals, cache, out, last>>
+View == <<stage, k, c, addr, mem, cacheS, cacheO, out, last>>
 =============================================================================
